@@ -93,8 +93,11 @@ class HeapMaintenance(Harness):
     agreement_runs = 16
     props = ("C02",)
 
+    wide_thorough = True     # thorough tier widens the shallow books (K <= 4, two ops, all kind mixes)
+
     def cases(self, tier):
         out = []
+        wide = tier == "thorough" and self.wide_thorough
         for is_buy in (True, False):
             for K in (2, 3, 4):
                 kind_sets = list(itertools.product("01", repeat=K)) if K <= 3 else [tuple("0" * K)]
@@ -102,13 +105,13 @@ class HeapMaintenance(Harness):
                 for kinds in kind_sets:
                     limit_only = "1" not in kinds
                     ops_sets = [[]] + [[a] for a in alphabet]
-                    if tier == "thorough" or (K == 3 and limit_only) or K == 2:
+                    if wide or (K == 3 and limit_only) or K == 2:
                         ops_sets += [[a, b] for a in alphabet for b in alphabet if not (a == b and a[0] == "C")]
                     for ops in ops_sets:
                         for sm in (False, True):
                             if sm and limit_only and K >= 3:
                                 continue   # market sweep of a limit-only book adds nothing over the limit sweep
-                            if tier == "quick" and K == 4 and ops and ops[0] == "R":
+                            if not wide and K == 4 and ops and ops[0] == "R":
                                 continue
                             out.append({"is_buy": is_buy, "K": K, "kinds": "".join(kinds), "ops": ops,
                                         "deep": False, "sweep_market": sm})
@@ -226,9 +229,11 @@ class C02_HeapMaintenance(HeapMaintenance):
 
 class C03_HeapMaintenance(HeapMaintenance):
     props = ("C03",)
+    wide_thorough = False
     reach = ("nontrivial", "cancel-nonbest", "expired-some", "post:uncrossed-two-sided")
 
 
 class C01_HeapMaintenance(HeapMaintenance):
     props = ("C01",)
+    wide_thorough = False     # the wide shallow space is explored under C02; C01 adds the deep books only
     reach = ("nontrivial", "cancel-nonbest")
